@@ -28,6 +28,9 @@ VARIANTS_QUICK = {
     # a getEvent policy whose result only converts to the key (long for an int key) and maps the key
     'gxx_int_incl_converting_policy': ('g++', 'c++17', ['VH_KEY=0', 'VH_ARGMODE=1', 'VH_GETEVENT=3']),
     'clang_int_excl_converting_policy': ('clang++', 'c++14', ['VH_KEY=0', 'VH_ARGMODE=0', 'VH_GETEVENT=3']),
+    # a user-supplied flat map (sorted vector): the lists move when an entry is inserted in front of them
+    'gxx_int_excl_flatmap': ('g++', 'c++17', ['VH_KEY=0', 'VH_ARGMODE=0', 'VH_MAP=3', 'VH_POLICY=1']),
+    'gxx_string_incl_flatmap': ('g++', 'c++11', ['VH_KEY=1', 'VH_ARGMODE=1', 'VH_MAP=3', 'VH_POLICY=1']),
 }
 VARIANTS_MORE = {
     'clang_string_excl': ('clang++', 'c++11', ['VH_KEY=1', 'VH_ARGMODE=0', 'VH_MAP=1']),
@@ -97,6 +100,8 @@ def index_sequence_probe(ctx, upto=20):
 
 def run(ctx):
     proof = vlib.coq_prove(ctx, FILES, leaves=['callbacklist', 'dispatch', 'queue'])
+    nref = vlib.ref_args_probe(ctx, [('g++', 'c++11', '-O1'), ('clang++', 'c++14', '-O1')] +
+                               ([('g++', 'c++20', '-O2'), ('clang++', 'c++11', '-O0'), ('clang++', 'c++20', '-O2')] if ctx.tier == 'thorough' else []))
     nprobe, wrong, said = index_sequence_probe(ctx)
     if wrong is not None:
         if wrong >= 0:
@@ -161,7 +166,7 @@ def run(ctx):
         'traces_validated_against_impl': tot['compared'], 'disagreements': tot['disagreements'],
         'model_error_discarded': tot['model_error_discarded'], 'generator_histogram': hist,
         'build_variants': {k: list(v[:2]) + v[2] for k, v in variants.items()},
-        'index_sequence_arities_probed': nprobe,
+        'index_sequence_arities_probed': nprobe, 'reference_argument_probe_builds': nref,
         'header_sha': vlib.sha(os.path.join(vlib.REPO, 'include/eventpp/eventdispatcher.h')),
     })
     ctx.assumptions += ['compilers and standard libraries are not modelled: the build variants are evidence for the evaluation-order and implicit-move parameters, the theorems quantify over them']
